@@ -38,6 +38,25 @@ def run(tier: str) -> Run:
     r3 = run.rule('R3', 'hkl = inv(R*UB)*Q/(2 pi): 2 pi R UB hkl == Q; UB == U*B', 3)
     r4 = run.rule('R4', 'Q depends on the beams only through unit vectors (no beam length survives rescaling)', 2)
 
+    # R7 first: the algebra below is decided on unit- and dimension-carrying variables.  A kernel that takes the bare numbers
+    # out of an operand and computes on them with numpy leaves that algebra (axis order, broadcasting and units are then the
+    # kernel's own business) and cannot be reduced to a normal form: reported as such, and not examined further.
+    r7 = run.rule('R7', 'the kernels compute on variables, not on bare numbers taken out of their operands', 5)
+    KERNELS = ('Q_elements_from_wavelength', 'Q_vec_from_Q_elements', 'hkl_vec_from_Q_vec', 'hkl_elements_from_hkl_vec', 'ub_matrix_from_u_and_b')
+    opaque = set()
+    for name in KERNELS:
+        kfi = repo.func('conversion.tof', name)
+        raws = []
+        for o in run_kernel(repo, kfi, specs_for(kfi)):
+            for e in events(o, 'raw-value'):
+                raws.append({'where': e.where, 'unit': e.detail.get('unit')})
+        if raws:
+            opaque.add(name)
+        r7.check(not raws, name, loc(kfi), {'raw_number_uses': list({str(x): x for x in raws}.values())[:3]}, key=f'raw:{name}')
+    if opaque:
+        run.extra['not_examined_further'] = sorted(opaque)
+        return run
+
     fi, outs = single(repo, 'Q_elements_from_wavelength')
     want = (formulas.unit_vec('incident_beam') - formulas.unit_vec('scattered_beam')) * (2 * formulas.pi() / S('wavelength'))
     comps = {}
